@@ -47,7 +47,7 @@ CHECKS = {
     "C13": ("exploration", "identity-level structural snapshots of Plan/Registry (nodes, scopes, edges, entries, and a fingerprint of every other attribute) before vs after every operation kind; concurrent runs vs reference; building on copies",
             "Held on the sampled operations (run with every outcome, dry_run, render, concurrent runs, copy mutations): the caller's Plan and Registry snapshots were identical before and after; concurrent runners returned the reference value.",
             "snapshots compare identities of nodes, edge keys, RegistryValues, stores and stack frames", "3/C13"),
-    "C15": ("exploration", "online trace-specification checker on a recording ProgressObserver + independent execution counters (plain, registry, dry, failing-member, flaky-notification and really interrupted runs)",
+    "C15": ("exploration", "online trace-specification checker on a recording ProgressObserver + independent execution counters (plain, registry incl. failing modified-time queries under every error limit, dry, failing-member, flaky-notification and really interrupted runs)",
             "Held on the sampled runs: enter/exit bracketing, totals before running, per-thread/per-scope balance, completed==total after success, run/stale totals equal to independently counted executions, composite members received identical per-thread sequences.",
             "recording observer stamps under its own lock; scope = user scope + fully qualified function name", "3/C15"),
     "C16": ("exploration", "weak-reference liveness monitor after gc.collect() at call starts, inside completed notifications and at logically quiescent states; release of a result with several consumers finishing together under single-preemption enumeration (worker held at every instruction of run_physical's and the graph runner's bookkeeping)",
@@ -65,7 +65,7 @@ CHECKS = {
     "C20": ("exploration", "generated legal notification sequences with a virtual clock driven into the bundled observers; render-exception, final-rendering (counts, attributed-time strings against a reference formatter, IPython display call and widget tree) and elapsed-sum monitors; displays left with error / interrupt exit info",
             "Held on the sampled sequences over arbitrary hashable scopes: no rendering raised (direct or in the update thread), the last console line / HTML document / widget label per scope shows the final counts, attributed elapsed time sums to the busy virtual time.",
             "virtual clock substituted for the module's time; ipywidgets importable", "3/C20"),
-    "C14": ("exploration", "event-log monitor during dry runs + differential execution of the returned physical plan vs the real run from a restored state",
+    "C14": ("exploration", "event-log monitor during dry runs (stores, call functions and the caller's literal objects) + differential execution of the returned physical plan vs the real run from a restored state, incl. failing modified-time queries and sources the given registry does not cover",
             "Held on the sampled states: dry runs stamped only modified-time queries and changed nothing; executing all nodes of the returned plan alone gave the same event multiset, store contents and output as the real run.",
             "snapshot/restore of in-memory stores", "3/C14"),
 }
